@@ -30,7 +30,7 @@ ASSUMPTIONS = [
     "fresh interpreters are /venv/bin/python -m harness.solo started with PYTHONHASHSEED set to the generated value",
     "worker assignment is varied implicitly: histories are evaluated in 16 forked worker processes, each having run different earlier histories",
 ]
-BUDGET = {"quick": 48, "thorough": 700}
+BUDGET = {"quick": 64, "thorough": 700}
 PROFILE = gen.profile(seasons=(1, 2), max_days=420, p_gdd=0.3, p_custom_soil=0.15, p_dz=0.1, p_soil_args=0.2, p_gw=0.2, p_fm=0.3,
                       p_ffm=0.15, p_co2=0.2, pad=(0, 10), storms=(0, 2))
 _SOLO = {}
@@ -69,7 +69,7 @@ def histories(draw):
             t = copy.deepcopy(pool[0])
             for _k in range(draw(st.integers(1, 2))):
                 what = draw(st.sampled_from(["HIini", "HI0", "CCx", "WP", "Zmax", "Tbase", "SxTopQ", "fshape_b", "GermThr", "PlantPop",
-                                             "cn", "rew", "AppEff", "noise", "et0", "iwc", "window", "window"]))
+                                             "cn", "rew", "AppEff", "noise", "et0", "iwc", "window", "window", "subwindow", "subwindow"]))
                 ov = t["crop"].setdefault("overrides", {})
                 if what == "HIini":
                     ov["HIini"] = draw(st.sampled_from([0.005, 0.02, 0.03]))
@@ -117,6 +117,26 @@ def histories(draw):
                             t["gw"]["dates"] = [sh(x, "%Y/%m/%d") for x in t["gw"]["dates"]]
                         if (t.get("irr") or {}).get("schedule"):
                             t["irr"]["schedule"] = [[sh(d_, "%Y-%m-%d"), v_] for d_, v_ in t["irr"]["schedule"]]
+                    except ValueError:
+                        pass   # 29 February
+                elif what == "subwindow":
+                    # the same configuration over a window that CONTAINS the first one (starts one or two years earlier;
+                    # the weather table is extended backwards): anything remembered per input object for 'the simulated
+                    # years' is stale when the shorter window is run after the longer one
+                    import datetime as _dt
+
+                    try:
+                        k = draw(st.sampled_from([1, 1, 2]))
+                        d0 = _dt.datetime.strptime(t["start"], "%Y/%m/%d")
+                        w0 = _dt.datetime.strptime(t["weather"]["first"], "%Y-%m-%d")
+                        n0, nw = d0.replace(year=d0.year - k), w0.replace(year=w0.year - k)
+                        if t["weather"].get("kind") == "synth" and not t.get("weather_xform"):
+                            t["start"] = n0.strftime("%Y/%m/%d")
+                            t["weather"]["days"] = int(t["weather"]["days"]) + (w0 - nw).days
+                            t["weather"]["first"] = nw.strftime("%Y-%m-%d")
+                            for ev in t["weather"].get("events", []):
+                                if isinstance(ev, dict) and "day" in ev:
+                                    ev["day"] = int(ev["day"]) + (w0 - nw).days
                     except ValueError:
                         pass   # 29 February
                 elif what == "iwc" and t.get("iwc") and t["iwc"]["wc_type"] == "Pct":
@@ -186,6 +206,11 @@ def evaluate(case):
                         if arg in kw and sub is not None:
                             kk = (key, json.dumps(sub, sort_keys=True, default=str))
                             kw[arg] = shared_objs.setdefault(kk, kw[arg])
+                    if "co2_concentration" not in kw:
+                        # 'no CO2 argument' means a default CO2(): the user's script may just as well hold ONE such object
+                        from aquacrop import CO2 as _CO2
+
+                        kw["co2_concentration"] = shared_objs.setdefault(("co2", "default"), _CO2())
                     shared_kw[inst[i]] = kw
                 m = AquaCropModel(**shared_kw[inst[i]])
             else:
